@@ -98,7 +98,7 @@ fn check_eq(what: &str, got: &Fp, want: &BigUint, ctx: &str) -> Result<(), Strin
   Ok(())
 }
 
-fn binary(a: &BigUint, bb: &BigUint, st: &mut Stats) -> Result<(), String> {
+pub fn binary(a: &BigUint, bb: &BigUint, st: &mut Stats) -> Result<(), String> {
   let (fa, fb) = (fe(a)?, fe(bb)?);
   let ctx = format!("a={a} b={bb}");
   check_eq("a+b", &(fa + fb), &addm(a, bb), &ctx)?;
@@ -141,7 +141,7 @@ fn exp_limbs(e: &BigUint) -> [u64; 3] {
   l
 }
 
-fn unary(a: &BigUint, exps: &[BigUint], st: &mut Stats) -> Result<(), String> {
+pub fn unary(a: &BigUint, exps: &[BigUint], st: &mut Stats) -> Result<(), String> {
   let fa = fe(a)?;
   let ctx = format!("a={a}");
   check_eq("-a", &(-fa), &negm(a), &ctx)?;
@@ -280,7 +280,7 @@ fn dec_strat(_t: Tier) -> BoxedStrategy<DecCase> {
   .boxed()
 }
 
-fn dec_oracle(c: &DecCase, st: &mut Stats) -> Result<(), String> {
+pub fn dec_oracle(c: &DecCase, st: &mut Stats) -> Result<(), String> {
   let mut arr = [0u8; 24];
   if c.s.len() != 24 {
     return Ok(());
@@ -476,6 +476,8 @@ pub fn property() -> Property {
       ),
       prop_sub("generated_ops", 50_000, 3_000_000, uni_strat, uni_oracle),
       prop_sub("decode", 60_000, 3_000_000, dec_strat, dec_oracle),
+      crate::fuzzentry::fuzz_sub("fuzzbytes_field", "field", "C07", 20000, 400000),
+      crate::fuzzentry::artefact_sub("artefact_field", "field", "C07"),
     ],
   }
 }
